@@ -252,7 +252,9 @@ def run_lemma(job):
     from lark.load_grammar import TerminalTreeToPattern
     from lark.lexer import PatternStr, PatternRE
     from vfw import rxz3
-    inners = {'a': PatternStr('a'), 'ab': PatternStr('ab'), '[ab]': PatternRE('[ab]'), 'a|bc': PatternRE('(?:a|bc)'), 'a+b': PatternRE('a+b')}
+    inners = {'a': PatternStr('a'), 'ab': PatternStr('ab'), '[ab]': PatternRE('[ab]'), 'a|bc': PatternRE('(?:a|bc)'), 'a+b': PatternRE('a+b'),
+              # raw regexps with a top-level alternation (what a user writes as /a|b/): the quantifier must bind to the whole operand
+              'raw:a|b': PatternRE('a|b'), 'raw:ab|c': PatternRE('ab|c'), 'raw:[ab]|c+': PatternRE('[ab]|c+')}
     inner = inners[job['inner']]
     tr = rxz3.Translator([(inner.to_regexp(), 0), ('[abc]', 0)])
     Rin = tr.translate(inner.to_regexp(), 0)
@@ -346,7 +348,7 @@ def plan(tier, seed):
                            'timeout': 300 if quick else 1200, 'bound': {'pairs': len(pairs), 'k': 'n-1, n, m, m+1'}})
     lemmas = []
     mmax = 40 if quick else 70
-    for inner in ('a', 'ab', '[ab]', 'a|bc', 'a+b'):
+    for inner in ('a', 'ab', '[ab]', 'a|bc', 'a+b', 'raw:a|b', 'raw:ab|c', 'raw:[ab]|c+'):
         for nlo, nhi in ((0, 3), (4, 9), (10, 19), (20, mmax)):
             lemmas.append({'name': 'L-rep:%s:n%d-%d:m<=%d' % (inner, nlo, nhi, mmax), 'inner': inner, 'nlo': nlo, 'nhi': nhi, 'mmax': mmax,
                            'timeout': 900 if quick else 3000})
